@@ -64,6 +64,7 @@ type Spec struct {
 	Outside    []string          `json:"outside"`
 	GoInline   bool              `json:"go_inline"`
 	Instrument []Instrument      `json:"instrument"`
+	RandFixed  *int              `json:"rand_fixed"` // math/rand.Intn(n) returns this value mod n instead of an arbitrary one
 	Parts      []string          `json:"parts"` // further spec files of the same property (other modules / package sets)
 	Tags       []string          `json:"tags"`
 }
